@@ -254,6 +254,22 @@ def reload_episodes(seed, count):
             ops += [{"op": "push", "b": True}, {"op": "set", "i": 0, "b": True}, {"op": "resize", "n": 70, "v": True},
                     {"op": "iter"}, {"op": "reload", "mode": "eps"}, {"op": "iter"}, {"op": "iter_ones"}]
         eps.append({"fam": "bitvec", "src": "reload", "ops": ops})
+    # sparse vectors: single ones in even- and odd-indexed words, each followed by two or more empty words (loops
+    # that skip empty words several at a time), every load path
+    for k in range(max(8, count // 8)):
+        nw = r.choice([9, 16, 17, 33, 40])
+        n = nw * W - r.choice([0, 1, 17, 63])
+        ones, wd = [], r.choice([0, 1])
+        while wd < nw:
+            ones.append(wd * W + r.randrange(W))
+            if r.random() < 0.3:
+                ones.append(wd * W + r.randrange(W))
+            wd += r.choice([3, 3, 4, 5, 6, 7, 8])
+        ones = sorted(p for p in set(ones) if p < n)
+        mode = ("eps", "eps8", "mmap", "full")[k % 4]
+        obs = [{"op": "iter_ones"}, {"op": "iter_zeros"}, {"op": "count_ones"}, {"op": "iter"}]
+        eps.append({"fam": "bitvec", "src": "reload", "ops": [
+            {"op": "raw", "rlen": n, "rnw": nw, "rstore": ones}] + obs + [{"op": "reload", "mode": mode}] + obs})
     # fixed corner cases: empty vector, exact word multiples, all ones
     for n in (0, 1, 63, 64, 65, 128, 192):
         for v in (False, True):
